@@ -70,6 +70,7 @@ def run(chk):
             chk.add(Finding("R12-dep", "R12-dep::shape", "cannot identify the two limit variables of calc_compu_method_limits (raw limits from get_datatype_limits, returned as a pair)", b.where()))
         else:
             bad = set()
+            raw_tuples = {t["dest"]["l"] for bi, t in b.calls() if (t.get("res") or "").endswith("get_datatype_limits") and not t["dest"]["p"]}
             for path in acyclic_paths(b):
                 npaths += 1
                 dep = {L: {"lower"}, U: {"upper"}}
@@ -87,8 +88,15 @@ def run(chk):
                             if pl is not None:
                                 srcs |= dep.get(pl["l"], tmp.get(pl["l"], set()))
                         if d in (L, U):
-                            dep[d] = srcs
-                            changed.add(d)
+                            init = False
+                            if s["rv"]["r"] == "use":
+                                ipl = mir.op_place(s["rv"]["a"])
+                                if ipl is not None and ipl["p"] and isinstance(ipl["p"][0], dict) and ipl["p"][0].get("adt") == "(tuple)" and ipl["l"] in raw_tuples:
+                                    dep[d] = {"lower"} if ipl["p"][0]["f"] == "0" else {"upper"}
+                                    init = True
+                            if not init:
+                                dep[d] = srcs
+                                changed.add(d)
                         else:
                             tmp[d] = srcs
                     t = blk["t"]
